@@ -15,6 +15,7 @@ func init() {
 			"(C11-e) 'covers every port number' is decided by equality with the full interval 1-65535, never from Min()/Max() of a set, and ContainedIn excuses a missing named port only under that equality on its operand. " +
 			"(C11-g) the components of a PortSet are read only by its own methods (one reviewed reader outside), so emptiness / containment / fullness are always asked of numbered and named ports together; " +
 			"(C11-f) Equal compares every map-valued field in both directions. " +
+			"(C11-h) Subtract drops a protocol exactly under ContainedIn of its port set in the operand's (not `subtract, then IsEmpty`, which loses the full-range cover of a named port); (C11-i) PortSet.IsEmpty reads Ports and NamedPorts only, never the excluded-names bookkeeping; (C11-range) intervals with runtime bounds flow only into AddInterval / AddHole. " +
 			"NOT decided: that results denote the right point sets - interval arithmetic belongs to np-guard/models and is not analysed."
 		rules.SetAlgebraEffects(p, r)
 		rules.CanonicalForm(p, r, "C11-c")
@@ -22,6 +23,9 @@ func init() {
 		rules.SymmetricEquality(p, r, "C11-f")
 		rules.PortSetEncapsulation(p, r, "C11-g")
 		rules.AllowAllResetsMap(p, r, "C11-c-reset")
+		rules.EmptinessIgnoresBookkeeping(p, r, "C11-i")
+		rules.SubtractDeletesByContainment(p, r, "C11-h")
+		rules.IntervalsFromRuntimeBounds(p, r, "C11-range")
 		r.Assume("interval.CanonicalSet.Union/Intersect/Subtract/Copy return fresh sets; AddInterval/AddHole write their receiver (read from np-guard/models v0.5.2)")
 		r.Assume("convention of the package, used as the contract: methods with results are read-only, methods without results mutate the receiver")
 	})
